@@ -8,14 +8,14 @@ from mutants.catalogue import MUTANTS, HARMLESS
 
 
 def run(pid, wall=400):
-    out = {"killed": [], "survived": [], "undecided": [], "harmless_green": [], "harmless_alarm": []}
+    out = {"killed": [], "survived": [], "undecided": [], "crashed": [], "harmless_green": [], "harmless_alarm": []}
     for name, f, old, new in MUTANTS.get(pid, []):
         r = subprocess.run([HERE + "/tools/mutest.py", "--edit", f, old, new, "--", pid], capture_output=True, text=True,
                            env=dict(os.environ, VERIF_WALL_S=str(wall), VERIF_TIER="quick"))
         line = [l for l in r.stdout.splitlines() if l.startswith(pid + " exit=")]
         code = int(line[0].split("=")[1]) if line else -1
         viol = [l.strip() for l in r.stdout.splitlines() if "VIOLATION" in l][:1]
-        (out["killed"] if code == 1 else out["undecided"] if code == 2 else out["survived"]).append({"mutant": name, "exit": code, "first": viol[0][:200] if viol else r.stdout[:200]})
+        (out["killed"] if code == 1 else out["undecided"] if code == 2 else out["survived"] if code == 0 else out["crashed"]).append({"mutant": name, "exit": code, "first": viol[0][:200] if viol else r.stdout[:200]})
     for name, f, old, new in HARMLESS.get(pid, []):
         r = subprocess.run([HERE + "/tools/mutest.py", "--edit", f, old, new, "--", pid], capture_output=True, text=True,
                            env=dict(os.environ, VERIF_WALL_S=str(wall), VERIF_TIER="quick"))
@@ -29,4 +29,4 @@ if __name__ == "__main__":
     pid = sys.argv[1]
     res = run(pid)
     print(json.dumps(res, indent=1))
-    sys.exit(0 if not res["survived"] and not res["undecided"] and not res["harmless_alarm"] else 1)
+    sys.exit(0 if not res["survived"] and not res["undecided"] and not res["crashed"] and not res["harmless_alarm"] else 1)
